@@ -20,7 +20,8 @@ LEVEL = "exploration"
 WORKERS = {"quick": 12, "thorough": 12}
 DEADLINE = {"quick": 170, "thorough": 2100}
 RULE = ("every expression text of the grammar (selectors with =, !=, =~, !~ x offset; 13 (quick) / 16 (thorough) range "
-        "functions x ranges {1m,5m}; 5 aggregations x {none, by, without}; binary operators {+,-,*,/,>,==,> bool,== bool} "
+        "functions x ranges {1m,5m}; 5 aggregations x {none, by, without}; binary operators {+,-,*,/,>,==,> bool,== bool} (thorough "
+        "+ %,^,<,>=,<=,!=,< bool,!= bool) "
         "vector/scalar and vector/vector with default/on/ignoring matching; depth <= 2) is evaluated on every sample set "
         "(quick: counter_reset, gap, irregular; thorough: + gauge, stale) as an instant query at every step of two ranges "
         "(28 times, on and off sample timestamps) and as two range queries; distinct_nontrivial = distinct (sample set, "
